@@ -779,7 +779,7 @@ def same(a, b) -> bool:
 
 class C03(C02):
     prop = "C03"
-    props_modules = ["Utv.Props.C03"]
+    props_modules = ["Utv.Props.C03", "Utv.Lemmas.C03Copy"]
     impl = "harness.c03:impl"
     lax_mode = True
     decl_share = 0.0
@@ -800,6 +800,36 @@ class C03(C02):
         out += [gen_reparse_case(rng) for _ in range(n_re)]
         out += [gen_copy_case(rng) for _ in range(n_cp)]
         return out
+
+    def run(self, tier, seed):
+        # audit the axioms module by module, so that a module that no longer builds (e.g. the obligations about
+        # utils/functional.py) does not take the theorems of the other module down with it in the report
+        from . import common
+        orig = common.print_axioms
+
+        def per_module(mods, names):
+            res = {}
+            prefix = self.theorem_prefix or (self.prop + "_")
+            for m in mods:
+                mine = [n for n in names if n in set(common.theorem_names(m, prefix))]
+                if mine:
+                    res.update(orig([m], mine))
+            for n in names:
+                res.setdefault(n, None)
+            return res
+        common.print_axioms = per_module
+        try:
+            return super().run(tier, seed)
+        finally:
+            common.print_axioms = orig
+
+    def sweep(self, cases, impl_outs, model_outs, findings):
+        disagreements, unknown, known = super().sweep(cases, impl_outs, model_outs, findings)
+        # a failing input of the property itself (a parse whose result does not re-parse) is reported in preference to
+        # one of the helper `copy_value` called directly
+        if any(u["case"].get("op") != "copy" for u in unknown):
+            unknown = [u for u in unknown if u["case"].get("op") != "copy"]
+        return disagreements, unknown, known
 
     def model_line(self, case):
         if case["op"] == "reparse":
